@@ -871,7 +871,8 @@ std::string plan_to_text(const Plan& p) {
     for (auto& op : p.setup) o += op_to_text(op) + "\n";
   }
   for (size_t t = 0; t < p.tasks.size(); t++) {
-    snprintf(b, sizeof b, "task %zu\n", t); o += b;
+    if (p.tasks[t].tloc) snprintf(b, sizeof b, "task %zu tloc=%d\n", t, p.tasks[t].tloc); else snprintf(b, sizeof b, "task %zu\n", t);
+    o += b;
     for (auto& op : p.tasks[t].ops) o += op_to_text(op) + "\n";
   }
   for (auto& d : p.sched.directives) {
@@ -1005,7 +1006,12 @@ bool plan_from_text(const std::string& txt, Plan& p, std::string* err) {
       for (;;) { unsigned long long v = strtoull(q, &e, 10); if (e == q) break; p.sched.task_events_hint.push_back(v); q = e; }
     }
     else if (line == "setup") section = -1;
-    else if (line.rfind("task ", 0) == 0) { section = atoi(line.c_str() + 5); while ((int)p.tasks.size() <= section) p.tasks.push_back(TaskPlan()); }
+    else if (line.rfind("task ", 0) == 0) {
+      section = atoi(line.c_str() + 5);
+      while ((int)p.tasks.size() <= section) p.tasks.push_back(TaskPlan());
+      const char* tl = strstr(line.c_str(), "tloc=");
+      if (tl) p.tasks[section].tloc = atoi(tl + 5);
+    }
     else if (line.rfind("op ", 0) == 0) {
       Op o;
       if (!parse_op(line, o, err)) return false;
